@@ -11,6 +11,9 @@ import (
 	"fmt"
 	"regexp"
 	"strings"
+	"sync/atomic"
+	"syscall"
+	"time"
 
 	"github.com/acquirecloud/golibs/container/iterable"
 	"verifharness/internal/vstat"
@@ -27,17 +30,34 @@ const (
 	OpHas   = "has"   // HasNext of open iterator #I
 	OpNext  = "next"  // Next of open iterator #I
 	OpClose = "close" // Close open iterator #I (it leaves the open list: never used again)
+
+	// Bulk ops (rapid part only). Run expands each of them into the single ops above, executed one by
+	// one against the same model and the same per-step checks; they exist so that big fills, drains
+	// to a small remainder and many parked iterators are reached by short op lists.
+	OpAddRange = "addr"     // Add of the N keys Key, Key+1, ... (in reverse order if Rev)
+	OpRemRange = "remr"     // Remove of the N keys Key, Key+1, ... (in reverse order if Rev)
+	OpIters    = "iters"    // open N iterators (each one subject to MaxIt)
+	OpAdvAll   = "adv"      // N times Next on every open iterator, one iterator after the other
+	OpNextN    = "nextn"    // N times Next on open iterator #I
+	OpCloseAll = "closeall" // Close every open iterator (first one first; last one first if Rev)
 )
+
+// MaxKeys bounds the key alphabet.
+const MaxKeys = 1024
 
 // Op is one call. Key is an index into the key alphabet (taken modulo Case.Keys), I an index into
 // the list of currently open iterators (taken modulo its length; with no open iterator the op is
 // a no-op), V a small value: the value stored by Add is 100*(sequence number of the entry)+V, so
 // that two entries never carry the same value and a stale value is recognisable.
+// N is the repeat count of a bulk op (cut to 0..Keys, for "iters" to 0..MaxIt, for "adv"/"nextn" to
+// 0..Keys+1), Rev its direction.
 type Op struct {
 	K   string `json:"k"`
 	Key int    `json:"key,omitempty"`
 	V   int    `json:"v,omitempty"`
 	I   int    `json:"i,omitempty"`
+	N   int    `json:"n,omitempty"`
+	Rev bool   `json:"rev,omitempty"`
 }
 
 // Case is a key-alphabet size, a bound on simultaneously open iterators and a call sequence.
@@ -61,8 +81,12 @@ type Info struct {
 	DupAdd           int // Add of a present key
 	UseAfterAllClose int // a map call after at least one iterator was closed and none is open
 	MaxOpen          int
-	Steps            int // ops that were not no-ops
-	Walks            int // structural walks performed
+	PeakLive         int  // largest number of live entries
+	DrainParked      int  // a Remove left <= a quarter of the peak (>= 16) live while an iterator was parked on a removed entry
+	BulkOps          int  // bulk ops expanded
+	StepCap          bool // MaxSteps was reached: the rest of the list was not executed
+	Steps            int  // ops that were not no-ops
+	Walks            int  // structural walks performed
 	NoHook           bool
 }
 
@@ -99,8 +123,25 @@ func (i Info) Classes() []string {
 	if i.MaxOpen >= 4 {
 		c = append(c, "open_iterators_ge_4")
 	}
+	if i.MaxOpen >= 9 {
+		c = append(c, "open_iterators_ge_9")
+	}
+	if i.PeakLive >= 16 {
+		c = append(c, "live_entries_ge_16")
+	}
+	if i.PeakLive >= 64 {
+		c = append(c, "live_entries_ge_64")
+	}
+	add(i.DrainParked, "drained_to_quarter_of_peak_with_parked_iterator")
+	add(i.BulkOps, "bulk_ops_used")
+	if i.StepCap {
+		c = append(c, "step_cap_reached")
+	}
 	if i.Steps >= 50 {
 		c = append(c, "effective_ops_ge_50")
+	}
+	if i.Steps >= 1000 {
+		c = append(c, "effective_ops_ge_1000")
 	}
 	return c
 }
@@ -117,56 +158,70 @@ type ent struct {
 // model is the sequence-number model: ents[s] is the entry that got sequence number s.
 type model struct {
 	ents    []ent
-	live    kmap // key -> sequence number of its live entry
-	lastRem kmap // key -> sequence number of its most recently removed entry
-	low     int  // every entry below low is dead
+	live    kmap    // key -> sequence number of its live entry
+	lastRem kmap    // key -> sequence number of its most recently removed entry
+	nxt     []int32 // union-find over dead entries: nxt[s]==s for a live entry, otherwise a later number (or len(ents))
 }
 
-// kmap is a tiny key -> sequence number table (keys are the single letters a..z; no Go map, no
-// allocation: the exhaustive part runs hundreds of millions of cases).
+// kmap is a key index -> sequence number table (-1 = absent); no Go map: the exhaustive part runs
+// hundreds of millions of cases.
 type kmap struct {
-	seq [26]int
-	has [26]bool
+	seq []int
 	n   int
 }
 
-func (m *kmap) get(k string) (int, bool) { i := k[0] - 'a'; return m.seq[i], m.has[i] }
-func (m *kmap) set(k string, s int) {
-	i := k[0] - 'a'
-	if !m.has[i] {
+func (m *kmap) init(buf []int) {
+	for i := range buf {
+		buf[i] = -1
+	}
+	m.seq, m.n = buf, 0
+}
+func (m *kmap) get(i int) (int, bool) { s := m.seq[i]; return s, s >= 0 }
+func (m *kmap) set(i int, s int) {
+	if m.seq[i] < 0 {
 		m.n++
 	}
-	m.seq[i], m.has[i] = s, true
+	m.seq[i] = s
 }
-func (m *kmap) del(k string) {
-	i := k[0] - 'a'
-	if m.has[i] {
+func (m *kmap) del(i int) {
+	if m.seq[i] >= 0 {
 		m.n--
 	}
-	m.has[i] = false
+	m.seq[i] = -1
 }
 
-var keyNames = func() (a [26]string) {
+// keyNames: a..z, then k26, k27, ...
+var keyNames = func() []string {
+	a := make([]string, MaxKeys)
 	for i := range a {
-		a[i] = string(rune('a' + i))
+		if i < 26 {
+			a[i] = string(rune('a' + i))
+		} else {
+			a[i] = fmt.Sprintf("k%d", i)
+		}
 	}
-	return
+	return a
 }()
 
 // nextLive returns the smallest sequence number >= pos of a live entry, or -1.
 func (m *model) nextLive(pos int) int {
-	for m.low < len(m.ents) && !m.ents[m.low].live {
-		m.low++
+	n := len(m.ents)
+	if pos >= n {
+		return -1
 	}
-	if pos < m.low {
-		pos = m.low
+	s := pos
+	for s < n && int(m.nxt[s]) != s {
+		s = int(m.nxt[s])
 	}
-	for s := pos; s < len(m.ents); s++ {
-		if m.ents[s].live {
-			return s
-		}
+	for p := pos; p < n && int(m.nxt[p]) != p; { // path compression: entries never come back to life
+		q := int(m.nxt[p])
+		m.nxt[p] = int32(s)
+		p = q
 	}
-	return -1
+	if s >= n {
+		return -1
+	}
+	return s
 }
 
 type mapT = iterable.Map[string, int]
@@ -196,32 +251,103 @@ type runner struct {
 	nextID     int
 	mut        int // number of effective mutations of the live set
 	closedAny  bool
-	step       int
-	cur        Op
+	step       int // index of the current op of the case
+	top        Op  // the current op of the case (possibly a bulk op)
+	sub        int // index of the single op inside a bulk op, -1 otherwise
+	cur        Op  // the single op being executed
+	touched    int // key index used by the current single op, -1 if none
+	walkedAt   int // value of info.Steps at the last structural walk
 	phase      string
+	kbuf       [16]int
+	id         uint64 // number of this run (watchdog)
+}
+
+// MaxSteps bounds the single ops executed by one case (bulk ops multiply); the ops beyond it are
+// not executed, so every list stays executable and cheap.
+const MaxSteps = 30000
+
+// ---------------------------------------------------------------------------------------------
+// watchdog: a corrupted list can make a call of the map spin forever (and allocate while doing so).
+// No oracle can notice that from inside, so a background goroutine watches the case in flight and
+// calls onHang when one and the same case has burnt more than the given amount of PROCESS CPU TIME
+// (not wall time: a starved or stopped process burns none, so machine load cannot trigger it).
+// A case costs milliseconds; the limit is seconds.
+
+var (
+	inFlight atomic.Pointer[runner]
+	runCount uint64 // only touched by the goroutine that calls Run
+)
+
+func cpuTime() time.Duration {
+	var ru syscall.Rusage
+	if syscall.Getrusage(syscall.RUSAGE_SELF, &ru) != nil {
+		return 0
+	}
+	return time.Duration(ru.Utime.Nano() + ru.Stime.Nano())
+}
+
+// StartWatchdog starts the watcher; onHang gets the case in flight and must not return.
+func StartWatchdog(limit time.Duration, onHang func(c Case, structural bool, where string, burnt time.Duration)) {
+	go func() {
+		var last *runner
+		var lastID uint64
+		var since time.Duration
+		for {
+			time.Sleep(250 * time.Millisecond)
+			r := inFlight.Load()
+			now := cpuTime()
+			if r == nil || r != last || r.id != lastID {
+				last, since = r, now
+				if r != nil {
+					lastID = r.id
+				}
+				continue
+			}
+			if burnt := now - since; burnt > limit {
+				c := r.c
+				c.Ops = append([]Op(nil), c.Ops...)
+				onHang(c, r.structural, fmt.Sprintf("op #%d of %d (%s)", r.step, len(c.Ops), r.phase), burnt)
+			}
+		}
+	}()
 }
 
 func (r *runner) where() string {
 	if r.phase != "" {
 		return fmt.Sprintf("%s (after all %d ops, keys=%d)", r.phase, len(r.c.Ops), r.c.Keys)
 	}
+	pre := fmt.Sprintf("op #%d ", r.step)
+	if r.sub >= 0 {
+		t := r.top
+		switch t.K {
+		case OpAddRange, OpRemRange:
+			pre += fmt.Sprintf("%s(from %s, n=%d, rev=%v) single op %d: ", t.K, r.key(t.Key), t.N, t.Rev, r.sub)
+		case OpNextN:
+			pre += fmt.Sprintf("%s(i=%d, n=%d) single op %d: ", t.K, t.I, t.N, r.sub)
+		default:
+			pre += fmt.Sprintf("%s(n=%d, rev=%v) single op %d: ", t.K, t.N, t.Rev, r.sub)
+		}
+	}
 	o := r.cur
 	switch o.K {
 	case OpAdd:
-		return fmt.Sprintf("op #%d Add(%s,..%d)", r.step, r.key(o.Key), o.V)
+		return pre + fmt.Sprintf("Add(%s,..%d)", r.key(o.Key), o.V)
 	case OpRem, OpGet:
-		return fmt.Sprintf("op #%d %s(%s)", r.step, o.K, r.key(o.Key))
+		return pre + fmt.Sprintf("%s(%s)", o.K, r.key(o.Key))
 	case OpHas, OpNext, OpClose:
 		if n := len(r.its); n > 0 {
-			return fmt.Sprintf("op #%d %s(iterator %d of %d open)", r.step, o.K, mod(o.I, n), n)
+			return pre + fmt.Sprintf("%s(iterator %d of %d open)", o.K, mod(o.I, n), n)
 		}
 	}
-	return fmt.Sprintf("op #%d %s", r.step, o.K)
+	return pre + o.K
 }
 
 func mod(x, n int) int { return ((x % n) + n) % n }
 
 func (r *runner) key(i int) string { return keyNames[mod(i, r.c.Keys)] }
+
+// small: the map is small enough for the full per-step checks (Get of every key, structural walk).
+func (r *runner) small() bool { return r.c.Keys <= 8 && len(r.its) <= 8 }
 
 // Run executes the case against the real map and the sequence-number model; with structural set
 // it additionally evaluates the list invariants of C11 after every step.
@@ -229,14 +355,18 @@ func Run(c Case, structural bool) (info Info, v *vstat.Violation) {
 	if c.Keys < 1 {
 		c.Keys = 1
 	}
-	if c.Keys > 26 {
-		c.Keys = 26
+	if c.Keys > MaxKeys {
+		c.Keys = MaxKeys
 	}
 	if c.MaxIt < 0 {
 		c.MaxIt = 0
 	}
 	r := &runner{c: c, structural: structural, info: &info}
+	runCount++
+	r.id = runCount
+	inFlight.Store(r)
 	v = vstat.Guard("map:panic", r.run)
+	inFlight.Store(nil)
 	if v != nil && v.Sig == "map:panic" {
 		v.Msg = "during " + r.where() + ": " + cleanStack(v.Msg)
 	}
@@ -265,24 +395,121 @@ func cleanStack(s string) string {
 
 func (r *runner) run() *vstat.Violation {
 	r.m = iterable.NewMap[string, int]()
-	if v := r.afterStep(); v != nil {
+	if n := r.c.Keys; n <= 8 {
+		r.md.live.init(r.kbuf[:n])
+		r.md.lastRem.init(r.kbuf[8 : 8+n])
+	} else {
+		buf := make([]int, 2*n)
+		r.md.live.init(buf[:n])
+		r.md.lastRem.init(buf[n:])
+	}
+	r.sub, r.touched, r.walkedAt = -1, -1, -1
+	if v := r.fullCheck(); v != nil {
 		return v
 	}
 	for i, op := range r.c.Ops {
-		r.step, r.cur = i, op
-		done, v := r.exec(op)
-		if v != nil {
-			return v
-		}
-		if !done {
-			continue
-		}
-		r.info.Steps++
-		if v := r.afterStep(); v != nil {
+		r.step, r.top, r.sub = i, op, -1
+		if v := r.execTop(op); v != nil {
 			return v
 		}
 	}
 	return r.finish()
+}
+
+func clip(n, lo, hi int) int { return max(lo, min(n, hi)) }
+
+// execTop executes one op of the case: a single op directly, a bulk op as the sequence of single
+// ops it stands for. After a bulk op (and after any op on a map that is not small) the checks that
+// are thinned out per step on big maps are made up for.
+func (r *runner) execTop(op Op) *vstat.Violation {
+	keys := r.c.Keys
+	bulk := true
+	var v *vstat.Violation
+	sub := func(o Op) bool {
+		r.sub++
+		v = r.single(o)
+		return v == nil
+	}
+	switch op.K {
+	case OpAddRange, OpRemRange:
+		kind := OpAdd
+		if op.K == OpRemRange {
+			kind = OpRem
+		}
+		n := clip(op.N, 0, keys)
+		for j := 0; j < n; j++ {
+			k := op.Key + j
+			if op.Rev {
+				k = op.Key + n - 1 - j
+			}
+			if !sub(Op{K: kind, Key: k, V: op.V}) {
+				return v
+			}
+		}
+	case OpIters:
+		for j, n := 0, clip(op.N, 0, r.c.MaxIt); j < n; j++ {
+			if !sub(Op{K: OpIter}) {
+				return v
+			}
+		}
+	case OpAdvAll:
+		n := clip(op.N, 0, keys+1)
+		for i, open := 0, len(r.its); i < open; i++ {
+			for j := 0; j < n; j++ {
+				if !sub(Op{K: OpNext, I: i}) {
+					return v
+				}
+			}
+		}
+	case OpNextN:
+		if len(r.its) > 0 {
+			i := mod(op.I, len(r.its))
+			for j, n := 0, clip(op.N, 0, keys+1); j < n; j++ {
+				if !sub(Op{K: OpNext, I: i}) {
+					return v
+				}
+			}
+		}
+	case OpCloseAll:
+		for n := len(r.its); n > 0 && len(r.its) > 0; n-- {
+			i := 0
+			if op.Rev {
+				i = len(r.its) - 1
+			}
+			if !sub(Op{K: OpClose, I: i}) {
+				return v
+			}
+		}
+	default:
+		bulk = false
+		r.sub = -1
+		if v = r.single(op); v != nil {
+			return v
+		}
+	}
+	if bulk {
+		r.info.BulkOps++
+		r.cur = Op{K: "end of " + op.K}
+	}
+	if bulk || !r.small() {
+		return r.fullCheck()
+	}
+	return nil
+}
+
+// single executes one single op and the per-step checks.
+func (r *runner) single(op Op) *vstat.Violation {
+	if r.info.Steps >= MaxSteps {
+		r.info.StepCap = true
+		return nil
+	}
+	r.cur, r.touched = op, -1
+	done, v := r.exec(op)
+	if v != nil || !done {
+		return v
+	}
+	r.info.Steps++
+	return r.afterStep()
 }
 
 // parked tells whether the iterator sits on an entry that was removed while it was there.
@@ -311,11 +538,13 @@ func (r *runner) exec(op Op) (done bool, v *vstat.Violation) {
 	switch op.K {
 	case OpAdd:
 		r.noteUse()
-		k := r.key(op.Key)
+		ki := mod(op.Key, r.c.Keys)
+		k := keyNames[ki]
+		r.touched = ki
 		seq := len(md.ents)
 		val := 100*seq + mod(op.V, 100)
 		err := r.m.Add(k, val)
-		if _, present := md.live.get(k); present {
+		if _, present := md.live.get(ki); present {
 			r.info.DupAdd++
 			if err == nil {
 				return true, vstat.V("map:add-present-accepted", "%s: Add returned nil although the key is present", r.where())
@@ -325,7 +554,7 @@ func (r *runner) exec(op Op) (done bool, v *vstat.Violation) {
 		if err != nil {
 			return true, vstat.V("map:add-rejected", "%s: Add failed with %v although the key is absent", r.where(), err)
 		}
-		if old, ok := md.lastRem.get(k); ok {
+		if old, ok := md.lastRem.get(ki); ok {
 			for _, it := range r.its {
 				if it.pos <= old {
 					r.info.ReaddBehind++
@@ -337,12 +566,18 @@ func (r *runner) exec(op Op) (done bool, v *vstat.Violation) {
 			}
 		}
 		md.ents = append(md.ents, ent{key: k, val: val, live: true})
-		md.live.set(k, seq)
+		md.nxt = append(md.nxt, int32(seq))
+		md.live.set(ki, seq)
+		if md.live.n > r.info.PeakLive {
+			r.info.PeakLive = md.live.n
+		}
 		r.mut++
 	case OpRem:
 		r.noteUse()
-		k := r.key(op.Key)
-		seq, present := md.live.get(k)
+		ki := mod(op.Key, r.c.Keys)
+		k := keyNames[ki]
+		r.touched = ki
+		seq, present := md.live.get(ki)
 		if present {
 			pinned := false
 			for _, it := range r.its {
@@ -360,13 +595,23 @@ func (r *runner) exec(op Op) (done bool, v *vstat.Violation) {
 		r.m.Remove(k)
 		if present {
 			md.ents[seq].live = false
-			md.live.del(k)
-			md.lastRem.set(k, seq)
+			md.nxt[seq] = int32(seq + 1)
+			md.live.del(ki)
+			md.lastRem.set(ki, seq)
 			r.mut++
+			if p := r.info.PeakLive; p >= 16 && md.live.n <= p/4 {
+				for _, it := range r.its {
+					if r.parked(it) {
+						r.info.DrainParked++
+						break
+					}
+				}
+			}
 		}
 	case OpGet:
 		r.noteUse()
-		return true, r.checkGet(r.key(op.Key))
+		r.touched = mod(op.Key, r.c.Keys)
+		return true, r.checkGet(r.touched)
 	case OpLen:
 		r.noteUse()
 		return true, r.checkLen()
@@ -518,9 +763,10 @@ func (r *runner) closeIt(i int) *vstat.Violation {
 	return nil
 }
 
-func (r *runner) checkGet(k string) *vstat.Violation {
+func (r *runner) checkGet(ki int) *vstat.Violation {
+	k := keyNames[ki]
 	got, ok := r.m.Get(k)
-	seq, present := r.md.live.get(k)
+	seq, present := r.md.live.get(ki)
 	if ok != present {
 		return vstat.V("map:get-presence", "%s: Get(%s) returned flag %v, want %v; live entries: %s", r.where(), k, ok, present, r.liveString())
 	}
@@ -549,23 +795,57 @@ func (r *runner) checkFirst() *vstat.Violation {
 	return nil
 }
 
-// afterStep: Len and Get of every key of the alphabet reflect exactly the live set (read-only
-// calls), and - in structural mode - the list invariants of C11.
+// afterStep: Len and Get reflect exactly the live set (read-only calls), and - in structural mode -
+// the list invariants of C11. On a small map (<= 8 keys, <= 8 open iterators) Get of every key and
+// the O(n) walk follow every step; on a bigger one Get is called for the key of the op and two
+// rotating keys, the walk follows every 16th step, and the full sweep follows every op of the case
+// (execTop) - a bulk op stands for up to Keys steps - and the end of the case.
 func (r *runner) afterStep() *vstat.Violation {
 	if v := r.checkLen(); v != nil {
 		v.Msg = "after " + v.Msg
 		return v
 	}
-	for i := 0; i < r.c.Keys; i++ {
-		if v := r.checkGet(r.key(i)); v != nil {
+	if r.small() {
+		return r.sweep()
+	}
+	if r.touched >= 0 {
+		if v := r.checkGet(r.touched); v != nil {
 			v.Msg = "after " + v.Msg
 			return v
 		}
 	}
-	if r.structural {
+	for j := 0; j < 2; j++ {
+		if v := r.checkGet((2*r.info.Steps + j) % r.c.Keys); v != nil {
+			v.Msg = "after " + v.Msg
+			return v
+		}
+	}
+	if r.structural && r.info.Steps%16 == 0 {
 		return r.walk()
 	}
 	return nil
+}
+
+// sweep: Get of every key of the alphabet, and the walk.
+func (r *runner) sweep() *vstat.Violation {
+	for i := 0; i < r.c.Keys; i++ {
+		if v := r.checkGet(i); v != nil {
+			v.Msg = "after " + v.Msg
+			return v
+		}
+	}
+	if r.structural && r.walkedAt != r.info.Steps {
+		return r.walk()
+	}
+	return nil
+}
+
+func (r *runner) fullCheck() *vstat.Violation {
+	if v := r.checkLen(); v != nil {
+		v.Msg = "after " + v.Msg
+		return v
+	}
+	return r.sweep()
 }
 
 // Structural tells whether a violation is one of the list invariants of C11 (signature prefix
@@ -580,6 +860,7 @@ func (r *runner) walk() *vstat.Violation {
 		return nil
 	}
 	r.info.Walks++
+	r.walkedAt = r.info.Steps
 	open := len(r.its)
 	ln := r.m.Len()
 	desc := func() string {
@@ -617,7 +898,8 @@ func (r *runner) finish() *vstat.Violation {
 	if v := r.checkFirst(); v != nil {
 		return v
 	}
-	if v := r.afterStep(); v != nil {
+	r.walkedAt = -1
+	if v := r.fullCheck(); v != nil {
 		return v
 	}
 	// a fresh iterator returns exactly the live entries in insertion order
@@ -689,6 +971,12 @@ func (c Case) Hash() uint64 {
 		mix(uint64(int64(o.Key)) + 1000)
 		mix(uint64(int64(o.V)) + 2000)
 		mix(uint64(int64(o.I)) + 3000)
+		if o.N != 0 || o.Rev {
+			mix(uint64(int64(o.N)) + 4000)
+			if o.Rev {
+				mix(5000)
+			}
+		}
 	}
 	return h
 }
